@@ -89,6 +89,8 @@ func runMutant(m Mutant) mutantResult {
 		}
 		if a.Status != "proved" {
 			res.Failing = append(res.Failing, a.Name)
+		} else if a.deadSuccessParts() > 0 {
+			res.Failing = append(res.Failing, a.Name+" (success return unreachable)")
 		} else if a.vacuousParts() > spec.Vacuous[a.Name] {
 			res.Failing = append(res.Failing, a.Name+" (became vacuous)")
 		}
